@@ -617,6 +617,43 @@ def rule_store_shadows_follow(em, rep, rid):
 # a load takes over every definition of the script
 
 
+def engine_fields_after_init(em):
+    """{field: evaluator value} of a new engine: YP.__init__ evaluated by the checker, with each register_function call
+    replaced by the context entry the builtin table says it makes; {} when the constructor cannot be evaluated"""
+    cached = getattr(em, '_fields_after_init', None)
+    if cached is not None:
+        return cached
+    from .symex import SymEx, PathState, Const, DictV, Sym
+    from .rules_query import context_literal_keys
+    out = {}
+    try:
+        context_literal_keys(em)
+        reg = em.repo.lookup_method(em.YP, 'register_function')
+        init = em.repo.lookup_method(em.YP, '__init__')
+        by_node = {id(b['node']): b for b in em.builtins()}
+        ctx_field = 'eval_context'
+
+        class SX(SymEx):
+            def apply(self, e, f, args, kw, st, func):
+                if isinstance(f, tuple) and f[0] == 'bound' and f[1] is reg:
+                    b = by_node.get(id(e))
+                    d = st.fields.get(ctx_field)
+                    if b is None or not isinstance(d, DictV):
+                        raise AnalysisError('registration outside the builtin table')
+                    d.pairs.append([Const(b['key']), args[1] if len(args) > 1 else kw.get('func', Sym('func'))])
+                    return [(st, Const(None))]
+                return SymEx.apply(self, e, f, args, kw, st, func)
+        sx = SX(em.repo, inline=lambda g: g.module.name == 'engine' and g.cls is em.YP, max_depth=4)
+        sx.max_steps = 100000
+        outs = sx.run(init, [Sym(p) for p in init.params[1:]], PathState())
+        if len(outs) == 1:
+            out = dict(outs[0][0].fields)
+    except (AnalysisError, RecursionError):
+        out = {}
+    em._fields_after_init = out
+    return out
+
+
 def rule_load_takes_all(em, rep, rid):
     import re as _re
     from . import lexclass as lx
@@ -658,6 +695,15 @@ def rule_load_takes_all(em, rep, rid):
                         x.left.id in names and isinstance(x.comparators[0], (ast.Tuple, ast.List, ast.Set)) and \
                         all(isinstance(e_, ast.Constant) and isinstance(e_.value, str) for e_ in x.comparators[0].elts):
                     rx = lx.words([e_.value for e_ in x.comparators[0].elts])
+                if isinstance(x, ast.Compare) and len(x.ops) == 1 and isinstance(x.ops[0], (ast.In, ast.NotIn)) and is_name(x.left) and \
+                        x.left.id in names and is_self_attr(x.comparators[0]):
+                    # membership in a list the engine keeps: what a new engine has in it (the constructor is evaluated)
+                    from .symex import ListV, DictV, Const
+                    fv = engine_fields_after_init(em).get(x.comparators[0].attr)
+                    items = fv.items if isinstance(fv, ListV) else [k for k, _ in fv.pairs] if isinstance(fv, DictV) else None
+                    if items is not None and all(isinstance(i_, Const) and isinstance(i_.v, str) for i_ in items) and items and \
+                            x.comparators[0].attr != 'eval_context':
+                        rx = lx.words([i_.v for i_ in items])
                 if isinstance(x, ast.Call) and norm(x.func) in ('re.match', 're.fullmatch', 're.search') and len(x.args) == 2 and \
                         isinstance(x.args[0], ast.Constant) and is_name(x.args[1]) and x.args[1].id in names:
                     p_ = x.args[0].value
